@@ -624,8 +624,12 @@ def integer(name, lo=None, hi=None):
 def choose(name, options):
     """n-way solver-checked fork over a finite list; returns one option."""
     options = list(options)
+    pre = getattr(CTX, "presets", None)
+    if pre and name in pre:  # the case fixes this choice (work splitting across processes)
+        CTX.choices[name] = pre[name]
+        return options[pre[name]]
     if not CTX.symbolic:
-        i = int(Fraction(CTX.values[name]))
+        i = int(Fraction(CTX.values.get(name, 0)))
         CTX.choices[name] = i
         return options[i]
     if len(options) == 1:
